@@ -344,7 +344,11 @@ func runC16(r *Runner, g *Gen, tier string) string {
 			}
 		}
 	}
-	return "JSON-model trees over nil, bool, int (boundaries, zero), float64, string (all byte classes, empty), json.Number, []any and map[string]any with empty keys, empty and nil containers at every position, depth<=5; positions: top level, struct field beside other fields, unknown field skipped by an older struct, descriptor walk rendered as JSON; compared with the model; oracle: equality up to nil/empty containers, A and Z fields intact when skipping, descriptor JSON parses to the value"
+	// depth far beyond what generated trees reach (the encoding is built by hand: Marshal is quadratic in depth)
+	for _, d := range []int{1, 2, 7, 64, 65, 1000, 20000, 100000} {
+		r.Do(L(A("jdeep"), A(strconv.Itoa(d))), true, "jdeep")
+	}
+	return "JSON-model trees over nil, bool, int (boundaries, zero), float64, string (all byte classes, empty), json.Number, []any and map[string]any with empty keys, empty and nil containers at every position, depth<=5, plus one-element arrays nested 1 to 100000 deep (decode only, outside the model); positions: top level, struct field beside other fields, unknown field skipped by an older struct, descriptor walk rendered as JSON; compared with the model; oracle: equality up to nil/empty containers, A and Z fields intact when skipping, descriptor JSON parses to the value"
 }
 
 // ---- oracle ----
